@@ -37,7 +37,7 @@ Proof. exact denote_norm. Qed.
 Theorem C01_refuted_fun_old_index : exists cfg t, d_arms cfg = owned_arms /\ wf t = true /\
   exists bs, encode t = EOk bs /\ decode cfg bs = DErr KTag.
 Proof.
-  exists {| d_arms := owned_arms; d_cache := []; d_inflate := fun _ => None; d_float_text := fun _ => None;
+  exists {| d_arms := owned_arms; d_cache := []; d_refs := []; d_inflate := fun _ => None; d_float_text := fun _ => None;
             d_kcmp := fun _ _ => Eq; d_kinsert := fun _ k v m => m ++ [(k, v)]; d_extra_fuel := 0 |}.
   exists (TIntFun 0 (repeat 0 16) 0 0 [109] 2147483648 5 {| pnode := [110]; pnum := 1; pserial := 2; pcreation := 3; ploc := None |} []).
   split; [reflexivity|]. split; [vm_compute; reflexivity|].
@@ -47,7 +47,7 @@ Qed.
 (* non-vacuity: a nested term with every kind of node satisfies the hypotheses (with the real key order this is
    checked by the correspondence run; here a trivial append-order stands in for it) *)
 Example C01_example :
-  let cfg := {| d_arms := owned_arms; d_cache := []; d_inflate := fun _ => None; d_float_text := fun _ => None;
+  let cfg := {| d_arms := owned_arms; d_cache := []; d_refs := []; d_inflate := fun _ => None; d_float_text := fun _ => None;
                 d_kcmp := fun _ _ => Eq; d_kinsert := fun _ k v m => m ++ [(k, v)]; d_extra_fuel := 0 |} in
   let t := TTuple [TAtom [111; 107]; TInt (-5); TInt 4294967298; TList [TFloat 4607182418800017408; TBin [1; 2]];
                    TImproper [TInt 1] (TAtom [116]); TMap [(TInt 1, TStr [104; 105])]; TBig true [1; 0; 0; 0; 0; 0; 0; 0; 1];
